@@ -15,6 +15,11 @@ type OptDecl struct {
 	Names []string `json:"names"`
 	Bool  bool     `json:"bool"`
 	Env   bool     `json:"env,omitempty"` // backed by a set, valid environment variable
+	// EnvVal: the value the variable holds ("" = the default "true"/"envv"); whitespace-only values are values too
+	EnvVal string `json:"env_val,omitempty"`
+	// OnlyViaOptions: the option has no name the spec lexer can spell (non-ASCII): it is reachable through OPTIONS /
+	// the implicit spec only
+	OnlyViaOptions bool `json:"only_via_options,omitempty"`
 }
 
 // ArgDecl declares one positional argument.
